@@ -347,7 +347,10 @@ func c07R5(c *Ctx) {
 }
 
 func c07R6(c *Ctx) {
-	r := c.R.Rule("R6", "K3 DLQ config validity: pipeline.Service.UpdateDLQ stores the settings only after refusing negative values and a window that is not larger than the threshold", 3)
+	c07R6As(c, c.R.Rule("R6", "K3 DLQ config validity: pipeline.Service.UpdateDLQ stores the settings only after refusing negative values and a window that is not larger than the threshold", 3))
+}
+
+func c07R6As(c *Ctx, r string) {
 	fn := c.SSA(r, pPipe, "(*Service).UpdateDLQ")
 	if fn == nil {
 		return
